@@ -383,9 +383,10 @@ def commands_layer(ctx, res):
         finally:
             fe.teardown()
     outs = ctx.driver.batch(lines)
-    n0 = len(res.disagreements)
     compare(res, lines, impl, outs)
-    if len(res.disagreements) > n0:
+    # (the disagreement list is capped: look at the lines themselves, so that an earlier part of the check that already filled the
+    # list does not hide a command-layer difference)
+    if any(a != m for a, m in zip(impl, outs)):
         # which history?  the property's own clause: a refused create leaves folders and mapping unchanged
         k = -1
         for i, (l, a, m) in enumerate(zip(lines, impl, outs)):
